@@ -10,6 +10,8 @@ SIZES = [1, 2, 3, 4, 5, 8, 16, 17, 24, 32]
 
 
 def rshape(rng, rank=None, maxnumel=2048):
+    if rank is None and rng.random() < 0.03:
+        return ()  # 0-dim tensors are tensors too
     rank = int(rng.integers(1, 5)) if rank is None else rank
     while True:
         shape = tuple(int(SIZES[rng.integers(len(SIZES))]) for _ in range(rank))
@@ -25,7 +27,7 @@ class Pool:
 
     def randn(self, shape, mag=None):
         mag = float(np.exp(self.rng.uniform(math.log(0.05), math.log(20)))) if mag is None else mag
-        x = torch.from_numpy(self.rng.standard_normal(shape).astype(np.float32) * mag).reshape(shape)
+        x = torch.as_tensor(np.asarray(self.rng.standard_normal(shape), dtype=np.float64) * mag, dtype=torch.float32).reshape(shape)
         return x.to(self.wd)
 
     def act(self, shape, qtn="qint8", scale=None, x=None):
@@ -108,7 +110,7 @@ class Pool:
 
 
 def scalar(rng):
-    c = rng.integers(10)
+    c = rng.integers(13)
     v = float(np.exp(rng.uniform(math.log(0.1), math.log(8))))
     if c == 0:
         return int(rng.integers(2, 5))
@@ -124,6 +126,12 @@ def scalar(rng):
         return torch.tensor([v])  # a one-element tensor that is not 0-dim broadcasts like any tensor
     if c == 9:
         return torch.tensor([[-v]])
+    if c == 10:
+        return torch.tensor(v, dtype=torch.float64)  # a 0-dim tensor never promotes a tensor with dimensions
+    if c == 11:
+        return torch.tensor(int(rng.integers(2, 5)))  # 0-dim integer tensor
+    if c == 12:
+        return torch.tensor([v], dtype=torch.float64)  # dimensioned float64: the float program promotes
     return v
 
 
@@ -436,15 +444,15 @@ def templates():
     # ---- where / comparisons
     @reg("where")
     def _(p, a):
-        cond = torch.from_numpy(p.rng.random(tuple(a.shape)) < 0.5)
+        cond = torch.as_tensor(np.asarray(p.rng.random(tuple(a.shape)) < 0.5))
         lim = float(a.dequantize().abs().max()) if hasattr(a, "qtype") else float(a.abs().max())
         c = p.rng.integers(4)
         if c == 0:
-            other = (torch.from_numpy(p.rng.uniform(-1, 1, tuple(a.shape)).astype(np.float32)) * lim).to(a.dtype)
+            other = (torch.as_tensor(np.asarray(p.rng.uniform(-1, 1, tuple(a.shape))), dtype=torch.float32) * lim).to(a.dtype)
             return lambda: torch.where(cond, a, other)
         if c == 1:
             # a quantized (or plain) replacement whose values stay inside the quantized operand's range
-            vals = (torch.from_numpy(p.rng.uniform(-1, 1, tuple(a.shape)).astype(np.float32)) * lim).to(a.dtype)
+            vals = (torch.as_tensor(np.asarray(p.rng.uniform(-1, 1, tuple(a.shape))), dtype=torch.float32) * lim).to(a.dtype)
             qtn = ["qint8", "qfloat8_e4m3fn", "qfloat8_e5m2", None][p.rng.integers(4)]
             other = vals if qtn is None else p.act(tuple(a.shape), qtn, x=vals)
             if qtn is not None and float(other.dequantize().abs().max()) > lim:
